@@ -56,6 +56,14 @@ def run_case(case):
     else:
         q = S.FrameQueueFrag() if frag else S.FrameQueue()
     model = RefQueue(6)
+    # a second queue object in the same program (another network on another radio): it reassembles a message of its own,
+    # one fragment whenever the queue under test is given fragments, and must end up holding exactly that message
+    twin = S.FrameQueueFrag() if case.get("twin") else None
+    twin_frames, twin_fed = [], [0]
+    if twin is not None:
+        from vlib.ref import frag as rfrag0
+        twin_body = bytes(range(100, 160))
+        twin_frames = rfrag0.fragment(0o3, 0o1, 4242, 9, twin_body)
     shared = [S.RF24NetworkFrame(), S.RF24NetworkFrame()]
     interesting = False
     try:
@@ -98,6 +106,11 @@ def run_case(case):
                     fr = S.RF24NetworkFrame()
                     fr.unpack(raw)
                     got = q.enqueue(fr)
+                    if twin is not None and twin_fed[0] < len(twin_frames):
+                        tf = S.RF24NetworkFrame()
+                        tf.unpack(twin_frames[twin_fed[0]])
+                        twin.enqueue(tf)
+                        twin_fed[0] += 1
                 if bool(got) != exp:
                     res.fail("C12/enqueue-return/reassembled", "last fragment's enqueue returned %r, reference %r (len %d, max %d)" % (
                         got, exp, len(model), model.max_size))
@@ -159,6 +172,21 @@ def run_case(case):
             rest.append(_tuple(f))
         if rest != model.items:
             res.fail("C12/final-drain-differs", "drained %r, reference %r" % (rest, model.items))
+        if twin is not None:
+            # let the second queue finish its own message, then it must hold exactly that message (or nothing of it yet)
+            while twin_fed[0] and twin_fed[0] < len(twin_frames):
+                tf = S.RF24NetworkFrame()
+                tf.unpack(twin_frames[twin_fed[0]])
+                twin.enqueue(tf)
+                twin_fed[0] += 1
+            held = []
+            while len(twin):
+                held.append(_tuple(twin.dequeue()))
+            want = [(0o3, 0o1, 4242, 9, 9, twin_body)] if twin_fed[0] else []
+            if [(h[0], h[1], h[2], h[3], h[5]) for h in held] != [(w[0], w[1], w[2], w[3], w[5]) for w in want]:
+                res.fail("C12/second-queue-object-disturbed", "another FrameQueueFrag object in the program, fed its own %d fragments, holds %r" % (
+                    twin_fed[0], [(h[0], h[3], len(h[5])) for h in held]))
+            res.label("second-queue-object")
         elif rest and interesting:
             res.nontrivial = True
         keys = [(t[0], t[2], t[3]) for t in rest]
@@ -179,7 +207,8 @@ def _enum(depth):
         for start in (True, False):
             for d in range(1, depth + 1):
                 for word in itertools.product(ALPHA, repeat=d):
-                    yield {"start_frag": start, "via_node": False, "frames": UNIVERSE, "ops": [list(o) for o in word]}
+                    yield {"start_frag": start, "via_node": False, "frames": UNIVERSE, "ops": [list(o) for o in word],
+                           "twin": bool(start) and any(o[0] == "enqfrag" for o in word)}
     return gen
 
 
@@ -192,13 +221,13 @@ def _strategy():
         st.tuples(st.just("enq"), st.integers(0, 5), st.integers(0, 2)).map(list),
         st.tuples(st.just("enq"), st.integers(0, 5), st.integers(0, 2)).map(list),
         st.tuples(st.just("mut"), st.integers(0, 1)).map(list),
-        st.tuples(st.just("enqfrag"), st.integers(0, 5)).map(list),
+        st.tuples(st.just("enqfrag"), st.integers(0, 5)).map(list), st.tuples(st.just("enqfrag"), st.integers(0, 5)).map(list),
         st.just(["deq"]), st.just(["peek"]),
         st.tuples(st.just("maxq"), st.integers(0, 8)).map(list),
         st.just(["toggle"]),
     )
     return st.fixed_dictionaries({
-        "start_frag": st.booleans(), "via_node": st.booleans(),
+        "start_frag": st.booleans(), "via_node": st.booleans(), "twin": st.booleans(),
         "frames": st.lists(frame, min_size=2, max_size=6),
         "ops": st.lists(op, min_size=1, max_size=40),
     })
@@ -292,7 +321,7 @@ def _machine():
         def case(self):
             if not self.ops or not self.frames:
                 return None
-            return {"start_frag": self.start_frag, "via_node": self.via_node, "frames": self.frames, "ops": self.ops}
+            return {"start_frag": self.start_frag, "via_node": self.via_node, "frames": self.frames, "ops": self.ops, "twin": True}
 
     return QueueHistory
 
